@@ -91,7 +91,7 @@ def key_str(p, t):
 
 
 STR_ALPHABET = 'abcdefghijklmnopqrstuvwxyz0123456789_-'
-STR_SPECIAL = ['pickle', 'None', '0', '1', 'a', 'tag', '_', '-1', 'A', 'pickle_', '', '', '']      # the empty string is a separator-free string too
+STR_SPECIAL = ['pickle', 'None', '0', '1', 'a', 'tag', '_', '-1', 'A', 'pickle_', '', '', '', 'tmp', 'tmp', 'bak', 'lock', 'new', 'part']      # the empty string is a separator-free string too
 
 
 def make_ids(rng, kind, n):
